@@ -498,9 +498,35 @@ func runC05(e *env) {
 	}
 	for k := 0; k < nm && len(sg) > 0; k++ {
 		b := sg[rng.Intn(len(sg))]
+		if k%4 == 3 {
+			if m, ok := c05MutateString(rng, b.segs); ok {
+				ins = append(ins, c05Input{b.in.Fam + "-string", m, b.in.Expr})
+				continue
+			}
+		}
 		ins = append(ins, c05Input{b.in.Fam, c05Mutate(rng, b.segs), b.in.Expr})
 	}
 	s.check(ins, true)
+
+	// (4b) attribute forms: every command with every attribute empty, missing, duplicated, unknown, malformed
+	ins = nil
+	var insOracle []c05Input
+	atags := c05Dedup(c05AttrTags())
+	e.res.Histogram["dictionary:attribute-forms"] = len(atags)
+	for i, t := range atags {
+		for lvl := 0; lvl < 3; lvl++ {
+			for _, body := range []string{t, t + c05Closer(t)} {
+				in := c05Input{"attrs", c05Wrap(lvl, body), false}
+				if thorough || (i+lvl)%3 == 0 {
+					ins = append(ins, in)
+				} else {
+					insOracle = append(insOracle, in)
+				}
+			}
+		}
+	}
+	s.check(ins, true)
+	s.check(insOracle, false)
 
 	// (5) random bytes
 	ins = nil
@@ -509,12 +535,71 @@ func runC05(e *env) {
 	}
 	s.check(ins, true)
 
+	// (d) parser half: the command-level parser model against parse.SoyFile / parse.Expr on the items of the
+	//     real scanner (go/cmd/soyverif/parsetie.go, shared with C18): outcome class, tree, error position
+	if !s.abort() {
+		c05ParserTie(s)
+	}
+
 	// (c) scaling probe
 	if thorough && !s.abort() {
 		c05Scaling(s)
 	}
 	if s.cutShort {
 		e.res.Note("the streams were cut short after %d hangs/crashes of the real code (each costs a timeout); the check has failed anyway", atomic.LoadInt32(&s.bad))
+	}
+}
+
+// c05ParserTie runs the parser model (Model/Parser.v, theorems parse_file_total / parse_expr_total /
+// parse_linear) on the items the real scanner sends and compares outcome class, tree and error
+// position with the real parser.  A hang or crash of the real parser is the oracle's business (b).
+func c05ParserTie(s *c05State) {
+	e := s.e
+	cases := ptGenInputs(e, 4000*e.scale)
+	var keep []ptCase
+	for _, c := range cases {
+		if c.Kind == "file" || c.Kind == "expr" {
+			keep = append(keep, c)
+		}
+	}
+	cases = keep
+	res := ptRun(e, cases, 2000, c05BatchTimeout)
+	var reqs []string
+	var idx []int
+	for i := range cases {
+		r := &res[i]
+		switch r.Class {
+		case "hang":
+			e.res.Histogram["outcome:hang"]++
+			e.res.Fail(hx.Violation{Kind: "oracle", What: "the parser does not return", Case: c05CaseJSON(c05Input{cases[i].Fam, cases[i].Text, cases[i].Kind == "expr"}, "P"),
+				Expected: "a tree or an error value", Observed: "hang"}, "")
+			continue
+		case "crash", "panic":
+			e.res.Histogram["outcome:"+r.Class]++
+			e.res.Fail(hx.Violation{Kind: "oracle", What: "the parser " + r.Class + "s", Case: c05CaseJSON(c05Input{cases[i].Fam, cases[i].Text, cases[i].Kind == "expr"}, "P"),
+				Expected: "a tree or an error value", Observed: r.Detail}, "")
+			continue
+		case "skipped":
+			continue
+		}
+		if q := ptModelReq(cases[i], r, false); q != "" {
+			reqs, idx = append(reqs, q), append(idx, i)
+		}
+	}
+	resp := s.modelBatch(reqs)
+	for k, i := range idx {
+		m := ptDecode(resp[k])
+		c := cases[i]
+		e.res.Count("parser:"+c.Kind+":"+c.Text, res[i].Class != "ok" || len(res[i].Q) > 0, "parser-tie:"+c.Fam)
+		if strings.HasPrefix(m.Class, "!") || m.Class == "fuel" {
+			e.res.Fail(hx.Violation{Kind: "mismatch", What: "the parser model does not return a tree or an error (its totality theorem says it must)", Case: c, Observed: m.Raw}, "")
+			continue
+		}
+		if m.Class == "crash" && strings.HasPrefix(m.ErrCls, "OUT-OF-MODEL") {
+			e.res.Histogram["parser-tie:float-outside-model"]++
+			continue
+		}
+		ptCompare(e, c, &res[i], m)
 	}
 }
 
